@@ -85,7 +85,17 @@ class C13(TraceCheck):
         return hists, stats
 
     def histories(self, tier, rng):
-        return []
+        # hand-written programs next to the generated ones: a value with a double-width character that nothing has
+        # looked at yet is wrapped (with padding) / sliced by columns / measured at an offset, and only then observed
+        def E(op, a, b=1, n=0, m=0):
+            return {"op": op, "a": a, "b": b, "n": n, "m": m}
+        progs = []
+        for mk in (E("raddstr", 4, 1, 2), E("addstr", 1, 1, 4), E("add", 1, 4), E("join", 4, 1, 2)):
+            for use in (E("wsplit", 5, 5, 0), E("wsplit", 5, 5, 1), E("wslice", 5, 5, 1, 3), E("widthat", 5, 5, 2), E("linesplit", 5, 5, 1),
+                        E("ljust", 5), E("split", 5), E("upper", 5)):
+                progs.append([mk, use, E("observe", 5)])
+                progs.append([mk, E("copy", 5), use, E("observe", 5), E("observe", 6)])
+        return progs
 
     def run_history(self, hist):
         from curtsies.formatstring import fmtstr, linesplit
@@ -237,9 +247,13 @@ class C13(TraceCheck):
                     d = {k: (int(v) if isinstance(v, bool) else v) for k, v in c.atts.items()}
                     if d != dict(c.atts) or any(isinstance(v, bool) for v in c.atts.values()):
                         str(FmtStr(Chunk(str(c.s), d)))
-            if op != "widthat" and not interleaved:
+            # every third time the new results are NOT looked at when they are made (their memos stay empty until a later
+            # step uses or observes them)
+            if op != "widthat" and not interleaved and (len(ev) + n) % 3 != 2:
                 rec["robs"] = [views(x) for x in news]
                 rec["rfresh"] = [fresh_views(x) for x in news]
+            elif op != "widthat" and not interleaved:
+                rec["robs"], rec["rfresh"] = [], []
             if res is not None:
                 rec["res"] = enc.enc_fmtstr(res)
                 if op in MODELLED and len(pool) < MAXPOOL:
